@@ -100,6 +100,8 @@ def expected(state, m, event, probe):
     if event == "op-offline":
         if state in (OL, OR):
             return EO, False, None, [CE_OFFLINE]
+        if state == HO:
+            return EO, False, None, []          # E30 transition 12: the operator's switch overrides the host's off-line (D38)
         return state, True, None, []
     if event == "op-local":
         if state == OR:
